@@ -223,7 +223,7 @@ func genYieldOff(r *rng) []string {
 	return off
 }
 
-var allYieldSites = []string{"trigger", "pptrigger", "probe", "indirect", "gossip", "pushpull", "acktimeout", "alive", "suspect", "susptimeout", "dead", "leave1", "leave2", "update", "shutdown1", "shutdown2", "decryptkey", "write", "dial", "evcb"}
+var allYieldSites = []string{"handoff", "trigger", "pptrigger", "probe", "indirect", "gossip", "pushpull", "acktimeout", "alive", "suspect", "susptimeout", "dead", "leave1", "leave2", "update", "shutdown1", "shutdown2", "decryptkey", "write", "dial", "evcb"}
 
 // ---------------------------------------------------------------- shrinking
 
